@@ -1,6 +1,8 @@
 package checks
 
 import (
+	"fmt"
+
 	"github.com/boombuler/barcode"
 	"github.com/boombuler/barcode/code128"
 	"github.com/boombuler/barcode/code39"
@@ -16,6 +18,21 @@ func evalCSScale(c *core.Ctx, cs *core.Case) {
 	var bc barcode.BarcodeIntCS
 	var err error
 	if p, w := Safely(func() {
+		if k := prm(cs, 1); k > 0 {
+			// the WithColor entry point under colour scheme k-1 of renderSchemes (non-white backgrounds included)
+			sc := renderSchemes[(k-1)%len(renderSchemes)].sc
+			switch prm(cs, 0) {
+			case 0:
+				bc, err = ean.EncodeWithColor(s, sc)
+			case 1:
+				bc, err = code128.EncodeWithColor(s, sc)
+			case 2:
+				bc, err = code39.EncodeWithColor(s, true, false, sc)
+			default:
+				bc, err = code39.EncodeWithColor(s, false, false, sc)
+			}
+			return
+		}
 		switch prm(cs, 0) {
 		case 0:
 			bc, err = ean.Encode(s)
@@ -95,6 +112,16 @@ func c14Body(c *core.Ctx) {
 		Run(c, &core.Case{Fam: "csscale", S: []byte(w), P: []int{3}})
 		return true
 	})
+	// the same rounds behind every WithColor entry point, all colour schemes
+	for k := 1; k <= len(renderSchemes); k++ {
+		for _, sp := range []struct {
+			s   string
+			fam int
+		}{{"4006381", 0}, {"590123412345", 0}, {"Ab1", 1}, {"\x01~", 1}, {"CODE 39", 2}, {"A+", 2}, {"CODE 39", 3}} {
+			Run(c, &core.Case{Fam: "csscale", S: []byte(sp.s), P: []int{sp.fam, k}})
+		}
+	}
+	c.R.Bound("scale_rounds_colour", fmt.Sprintf("the same sequences for 7 contents behind the WithColor entry points under each of %d colour schemes", len(renderSchemes)))
 	c.R.Bound("ean", "as C06 for this tier")
 	c.R.Bound("code128", "class words, full-alphabet words <= 2, macro words, length grid (with checksum)")
 	c.R.Bound("code39", "full-alphabet words and weight-period strings, all four option mixes")
